@@ -17,17 +17,21 @@ PROPS = {
                  rule="implementation-driven random gate-level histories on a CContainer[uint64] (config: one of 5 equality functions incl. none / "
                       "mod 2 / always equal / asymmetric a<=b / div 4, initial value): GetValue, SetValue v, SwapValue with callback nil | +k | "
                       "const k | identity, waiters WaitValue | WaitValueChange old | WaitValueEmpty | WaitValueWithValidator (5 validator families "
-                      "incl. nil and error-returning) with or without error channel; one critical section at a time, waiters additionally parked "
+                      "incl. nil and error-returning) with or without error channel, ccontainer.WatchChanges(initial, ToWatchable(ctr), cb) watchers (initial "
+                      "empty / non-empty, equal / unequal to the content; the callback parks and returns nil or an error as the history says; "
+                      "cancel / error-channel events also while inside the callback); one critical section at a time, waiters additionally parked "
                       "between their sampling section and the select; context cancellations; error channel nil / error / close; + corpus; "
                       "distinct = distinct event sequence + config; non-trivial = >= 8 events and some waiter observed blocked"),
         ],
         trusted=SCHED_TRUSTED + [
             "user callbacks (equality, SwapValue callback, validator) are pure functions from small coded families, mirrored in Gallina (eq_of_code, apply_f, validator)",
+            "the WatchChanges callback is harness-owned: it records its argument, parks (ctl.ParkUser) and returns nil or one fixed error as the history prescribes (model event CbRet)",
         ],
         assumptions=[
             "the harness realises the eager schedule (a blocked waiter whose select has a ready case runs to its next gate at once); the theorems cover every placement of wake-ups (Wake / CancelWake / ErrWake are separate events)",
             "'two select cases ready' (Go chooses at random) is covered by the theorems but never produced by the harness: a waiter never has a cancelled context and a pending error-channel item together, and is parked between sample and select only when neither is pending",
             "liveness ('never remain blocked while the content satisfies the condition') is stated as quiescence safety on top of the no-lost-wake-up invariant",
+            "WatchChanges is modelled as rounds of the WaitValueChange(current) waiter followed by the callback; there is no schedule point between the callback's return and the next round's HoldLock entry gate, so a round's 'held' values start at the content present when the callback returns; that WatchChanges returns the callback's error unchanged is compared through the correspondence (status 11) and is not a monitor clause (not C15 text)",
             "c15_swap_no_lost_update assumes the equality function never identifies v and v+1 (otherwise SwapValue by design does not store); all other theorems assume nothing about the equality function",
         ],
         meta=dict(
@@ -35,7 +39,9 @@ PROPS = {
                  "function: each critical section of Get/Set/Swap is one step of the sequential cell and the section order is a linearization "
                  "(c15_section_is_cell_step, c15_cell_linearizable), N SwapValue(+1) from any interleaving end at +N (c15_swap_no_lost_update), a waiter "
                  "returns only a value the cell held during the call and that satisfies its condition, no-lost-wake-up invariant and quiescence "
-                 "(no waiter blocked while the content satisfies its condition), errors only from a source that fired. Model tied to the code by "
+                 "(no waiter blocked while the content satisfies its condition), errors only from a source that fired; WatchChanges: every callback "
+                 "invocation gets a value held during that round's wait and different from current, no watcher blocked at quiescence while the content "
+                 "differs from current, it returns only an error whose source fired or the callback's own (c15_watch_*, c15_watcher_*). Model tied to the code by "
                  "scheduled differential correspondence: the harness drives the real container one critical section at a time (synctest), with an extra "
                  "gate between a waiter's sample and its select; the extracted model must produce the same status vectors; monitors (sequential-cell "
                  "results, held-and-satisfying, quiescence, error sources) are evaluated on the implementation's observations; model_satisfies_monitors "
